@@ -165,4 +165,136 @@ theorem code_agree_nil :
     viewD (Design.Contrast.code (.treatment none) false []) = some ([], []) := by
   decide
 
+/-! ### Levels of any type (strings or integers)
+
+The evaluation model also codes integer levels (`C(k)`, grouping by an integer column); the code
+and `Model/Coding.lean` see them through `str(level)`.  Whenever `str` separates the levels at hand
+(and the option, if given) the two models agree as well. -/
+
+/-- `str` is injective on `x :: levels` -/
+def LabelInj (x : Option Level) (levels : List Level) : Prop :=
+  ∀ a b, (a ∈ levels ∨ some a = x) → b ∈ levels → a.label = b.label → a = b
+
+theorem findIdx_label (x : Level) (levels : List Level)
+    (hinj : ∀ b, b ∈ levels → x.label = b.label → x = b) :
+    levels.findIdx (· == x) = (levels.map Level.label).idxOf x.label := by
+  induction levels with
+  | nil => rfl
+  | cons a rest ih =>
+    have ih' := ih (fun b hb => hinj b (List.mem_cons_of_mem _ hb))
+    by_cases hax : a = x
+    · subst hax
+      simp [List.findIdx_cons]
+    · have hl : ¬ a.label = x.label := fun e => hax (hinj a (List.mem_cons_self) e.symm).symm
+      rw [List.map_cons, List.findIdx_cons, List.idxOf_cons, ih']
+      have h1 : (a == x) = false := by simpa using hax
+      have h2 : (a.label == x.label) = false := by simpa using hl
+      rw [h1, h2]
+
+theorem indexOf?_label (x : Level) (levels : List Level)
+    (hinj : ∀ b, b ∈ levels → x.label = b.label → x = b) :
+    Design.indexOf? x levels =
+      if x.label ∈ levels.map Level.label then some ((levels.map Level.label).idxOf x.label)
+      else none := by
+  simp only [Design.indexOf?, findIdx_label x levels hinj]
+  by_cases h : x.label ∈ levels.map Level.label
+  · have := List.idxOf_lt_length_iff.mpr h
+    simp only [List.length_map] at this
+    simp [h, this]
+  · have : ¬ (levels.map Level.label).idxOf x.label < levels.length := fun hl =>
+      h (List.idxOf_lt_length_iff.mp (by simpa using hl))
+    simp [h, this]
+
+theorem labels_drop' (levels : List Level) (r : Nat) :
+    (levels.take r ++ levels.drop (r + 1)).map Level.label =
+      Coding.dropLevel (levels.map Level.label) r := by
+  simp only [Coding.dropLevel, List.map_append, List.map_take, List.map_drop]
+
+theorem treatmentReduced_agree' (r : Option Level) (levels : List Level) (hne : levels ≠ [])
+    (hinj : ∀ x, r = some x → ∀ b, b ∈ levels → x.label = b.label → x = b) :
+    viewD (Design.treatmentReduced r levels) =
+      viewC (Coding.Treatment.codeWithoutIntercept (r.map Level.label) (levels.map Level.label)) := by
+  have hlen : 0 < levels.length := List.length_pos_iff.mpr hne
+  have hlen' : levels.length ≠ 0 := by omega
+  cases r with
+  | none =>
+    simp only [viewD, viewC, Design.treatmentReduced, Coding.Treatment.codeWithoutIntercept,
+      Coding.Treatment.referenceIndex, bind, Except.bind, pure, Except.pure, hlen', Option.map_none,
+      List.length_map, if_false, splice_eq _ 0 hlen, labels_drop']
+  | some x =>
+    have hi := indexOf?_label x levels (hinj x rfl)
+    by_cases hx : x.label ∈ levels.map Level.label
+    · have hr : (levels.map Level.label).idxOf x.label < levels.length := by
+        simpa using List.idxOf_lt_length_iff.mpr hx
+      simp only [viewD, viewC, Design.treatmentReduced, Coding.Treatment.codeWithoutIntercept,
+        Coding.Treatment.referenceIndex, bind, Except.bind, pure, Except.pure, hlen', Option.map_some,
+        List.length_map, if_false, hi, hx, if_true, splice_eq _ _ hr, labels_drop']
+    · simp only [viewD, viewC, Design.treatmentReduced, Coding.Treatment.codeWithoutIntercept,
+        Coding.Treatment.referenceIndex, bind, Except.bind, Option.map_some, hi, hx, if_false]
+
+theorem sumReduced_agree' (o : Option Level) (levels : List Level) (hne : levels ≠ [])
+    (hinj : ∀ x, o = some x → ∀ b, b ∈ levels → x.label = b.label → x = b) :
+    viewD (Design.sumReduced o levels) =
+      viewC (Coding.Sum.codeWithoutIntercept (o.map Level.label) (levels.map Level.label)) := by
+  have hlen : 0 < levels.length := List.length_pos_iff.mpr hne
+  have hlen' : levels.length ≠ 0 := by omega
+  cases o with
+  | none =>
+    have hr : levels.length - 1 < levels.length := by omega
+    have hcast : ((levels.length : Int) - 1).toNat = levels.length - 1 := by omega
+    simp only [viewD, viewC, Design.sumReduced, Design.sumOmitIndex, Coding.Sum.codeWithoutIntercept,
+      Coding.Sum.sumContrast, Coding.Sum.omitIndex, bind, Except.bind, pure, Except.pure, hlen',
+      Option.map_none, List.length_map, if_false, hcast, splice_eq _ _ hr, labels_drop']
+  | some x =>
+    have hi := indexOf?_label x levels (hinj x rfl)
+    by_cases hx : x.label ∈ levels.map Level.label
+    · have hr : (levels.map Level.label).idxOf x.label < levels.length := by
+        simpa using List.idxOf_lt_length_iff.mpr hx
+      have hcast : (((levels.map Level.label).idxOf x.label : Nat) : Int).toNat =
+          (levels.map Level.label).idxOf x.label := by omega
+      simp only [viewD, viewC, Design.sumReduced, Design.sumOmitIndex,
+        Coding.Sum.codeWithoutIntercept, Coding.Sum.sumContrast, Coding.Sum.omitIndex, bind,
+        Except.bind, pure, Except.pure, hlen', Option.map_some, List.length_map, if_false,
+        hi, hx, if_true, hcast, splice_eq _ _ hr, labels_drop']
+    · simp only [viewD, viewC, Design.sumReduced, Design.sumOmitIndex,
+        Coding.Sum.codeWithoutIntercept, Coding.Sum.sumContrast, Coding.Sum.omitIndex, bind,
+        Except.bind, Option.map_some, hi, hx, if_false]
+
+/-- the option of a coding -/
+def Design.Contrast.option : Design.Contrast → Option Level
+  | .treatment r => r
+  | .sum o => o
+
+def toCoding : Design.Contrast → Coding.Contrast
+  | .treatment r => .treatment (r.map Level.label)
+  | .sum o => .sum (o.map Level.label)
+
+/-- **Agreement for levels of any type**: the evaluation model's coding of `levels` is the C13
+model's coding of `str(level)`, provided `str` does not identify the option with a different
+level. -/
+theorem code_agree_levels (c : Design.Contrast) (full : Bool) (levels : List Level)
+    (hne : levels ≠ [])
+    (hinj : ∀ x, Design.Contrast.option c = some x → ∀ b, b ∈ levels → x.label = b.label → x = b) :
+    viewD (Design.Contrast.code c full levels) =
+      viewC (Coding.Contrast.code (toCoding c) full (levels.map Level.label)) := by
+  cases c with
+  | treatment r =>
+    cases full
+    · simpa [Design.Contrast.code, Coding.Contrast.code, toCoding,
+        Coding.Contrast.codeWithoutIntercept] using treatmentReduced_agree' r levels hne hinj
+    · simp only [viewD, viewC, Design.Contrast.code, Coding.Contrast.code, toCoding,
+        Coding.Contrast.codeWithIntercept, Design.treatmentFull, Coding.Treatment.codeWithIntercept,
+        pure, Except.pure, eye_eq_unitRows, List.length_map, if_true]
+  | sum o =>
+    have h := sumReduced_agree' o levels hne hinj
+    cases full
+    · simpa [Design.Contrast.code, Coding.Contrast.code, toCoding,
+        Coding.Contrast.codeWithoutIntercept] using h
+    · simp only [Design.Contrast.code, Coding.Contrast.code, toCoding,
+        Coding.Contrast.codeWithIntercept, Design.sumFull, Coding.Sum.codeWithIntercept, bind,
+        Except.bind, if_true]
+      cases hd : Design.sumReduced o levels <;>
+        cases hc : Coding.Sum.codeWithoutIntercept (o.map Level.label) (levels.map Level.label) <;>
+        simp_all [viewD, viewC, pure, Except.pure, Coding.columnStackOnes]
+
 end FormulaeModel.Bridge
